@@ -20,6 +20,8 @@ CLAIMED = {
     "C15": ("anchored byte automaton (NFA compiler in default / sparse-dot / ASCII-only mode, simulated by the PikeVM) and the end-to-end Match vs regexp on ^(?:c)$ for EVERY byte string of length 1..3 (4 thorough): covers the UTF-8 of all runes of those lengths and all ill-formed inputs", "§5 C15"),
     "C16": ("prefilter.Find vs the naive least-literal-position definition for every haystack within the bound and start offset 0..2; complete prefilters: FindMatch / LiteralLen span vs leftmost-first match of the source alternation", "§5 C16"),
     "C17": ("for every member m of L(p) up to length 3 (4): some extracted prefix/suffix/inner literal occurs in m unless the sequence is empty or flagged partial; also under small extractor limits", "§5 C17"),
+    "C18": ("Go level only: exported simd primitives (pure-Go SWAR/generic implementations, CPU flags false) vs their one-line scalar definitions with symbolic contents, needles and table bits at lengths straddling the 8- and 16-byte chunk boundaries; the assembly kernels are not covered", "§5 C18"),
+    "C19": ("each specialised searcher constructed through its own applicability predicate (CharClassSearcher, CompositeSearcher, CompositeSequenceDFA, BranchDispatcher, anchored-literal matcher) and each strategy end-to-end through meta.Engine.FindIndicesAt/IsMatch on the whitelist-boundary corpus P19, vs the reference", "§5 C19"),
     "C14": ("PikeVM, BoundedBacktracker, lazy DFA (forward/anchored/earliest/reverse, tiny caches), one-pass DFA driven directly vs stdlib reference or explicit decline", "§5 C14"),
 }
 
